@@ -171,7 +171,7 @@ def family(F, body, depth=3, stop=()):
             continue
         for s, t in b.calls():
             cb = F.callee_body(t, b.crate)
-            if cb is None or cb.key in seen:
+            if cb is None or cb.key in seen or cb.key in stop_keys:
                 continue
             if cb.impl and cb.impl.get("trait"):
                 continue
